@@ -570,7 +570,20 @@ func (w *World) KillNode(n *Node, why string) {
 			delete(w.https, k)
 		}
 	}
+	var resets []*inflightHTTP
+	for _, k := range sortedKeys(w.inflight) {
+		if x := w.inflight[k]; x.node == n {
+			resets = append(resets, x)
+			delete(w.inflight, k)
+		}
+	}
 	w.mu.Unlock()
+	for _, x := range resets {
+		select {
+		case x.res <- httpResult{nil, fmt.Errorf("read tcp %s: read: connection reset by peer", x.addr)}:
+		default:
+		}
+	}
 	w.trace("kill %s %s", n.Name, why)
 	for _, l := range ls {
 		l.Close()
